@@ -15,6 +15,7 @@ CONSTANTS
   BadJs <- McBadJs
   Acts <- McActs
   CondCodes <- McCondCodes
+  OneShot <- McOneShot
 VIEW View
 INVARIANTS NeverSeenAfter RefusalHarmless Capacity CascadeExact
 CHECK_DEADLOCK FALSE
